@@ -188,7 +188,7 @@ def recv_case(rng):
 
 def gen_cases(rng, tier):
     quick = tier == 'quick'
-    n_stream = 420 if quick else 12000
+    n_stream = 420 if quick else 6000
     for proto in ('usbpro', 'robe', 'opc'):
         for i in range(n_stream):
             big = (i % 40 == 39)
@@ -202,7 +202,7 @@ def gen_cases(rng, tier):
         for sc in ('-', '1', '1,1', '1,1,1', '2,2,2', '1,2,3', 'I', 'I,1', '1,I,1', 'A', 'E', '0', '1,0,1', '1,A,1',
                    '1,E', 'I,I,I,6', '7', '3,3', '1,1,1,1,1,1,1'):
             yield 'recv %d %s %s' % (size, hx([(17 * j + 3) & 255 for j in range(size + 2)]), sc)
-    for i in range(1500 if quick else 60000):
+    for i in range(1500 if quick else 30000):
         yield recv_case(rng)
 
 def nontrivial(payload, md):
